@@ -220,6 +220,11 @@ def run(tier, out):
             if seed % 2:
                 for up in efx.names_of(model, "UsagePattern"):
                     model[up]["opt"]["starts"] = [round(x * 0.487, 3) for x in model[up]["opt"]["starts"]]
+            if seed % 3 == 0:
+                # a usage pattern whose local series starts on the half hour, in a half-hour zone (local 05:30 in Kolkata is midnight UTC)
+                up0 = efx.names_of(model, "UsagePattern")[0]
+                model[model[up0]["lnk"]["country"]]["opt"]["tz"] = "Asia/Kolkata"
+                model[up0]["opt"]["start"] = model[up0]["opt"]["start"][:14] + "30:00"
             try:
                 live = efx.build(ns, model)
             except Exception:
